@@ -1,3 +1,5 @@
 SPECIFICATION Spec
 INVARIANT ExactFlagTruthful
+CONSTANTS
+  PowiNegKeepsFlag = FALSE
 CHECK_DEADLOCK FALSE
